@@ -54,7 +54,7 @@ ASSUMPTIONS = [
     "record level (the unit the records are expressed in): the payload records have unit level; every part repeats a stated sub-lattice "
     "with the whole record multiplied by 1e-9, 1e-6, 1e-3 and 1e6 (all oracles are relative, so the tolerances are unchanged), and the "
     "lattice evaluates 'scales with the square of a common gain' for common gains G of that size as well: Sy(G Y, G Yref) against "
-    "G^2 Sy(Y, Yref), 1e-10 of the largest entry, with the same kind of array (complex) on both sides - quick: every third lattice point, "
+    "G^2 Sy(Y, Yref), 1e-10 of the largest entry, with the same kind of array (complex) on both sides - quick: one lattice point in three, "
     "G rotating over the four levels; thorough: every point; on the points whose base record is at level L, G = 1/L (back to unit level). "
     "Levels are limited to 1e-9 ... 1e6 so that the squares (1e-18 ... 1e12 times the unit-level densities) stay far from under/overflow",
 ]
@@ -599,6 +599,16 @@ LEVEL_NXSEG = (16, 64, 26, 39)                   # lattice, record-level sub-lat
 LEVEL_NXSEG_T = (16, 64, 256, 26, 39, 130)
 
 
+def with_quick(build, thorough):
+    """level sub-lattice of a part: the quick tier's points, in the thorough tier followed by the thorough ones not among them (the rotations
+    of the two tiers differ, so that the thorough list alone would not contain the quick one)"""
+    out = list(build(False))
+    if thorough:
+        seen = {repr(c) for c in out}
+        out += [c for c in build(True) if repr(c) not in seen]
+    return out
+
+
 def level_points(thorough):
     """Base records at the levels of LEVELS: channels 1..3 (thorough ..4) x every reference list x segment lengths (two powers of two, two
     with a prime factor >= 13) x estimator x level. quick: overlap, length and fs rotate over (level, reference list, nxseg) so that every
@@ -624,9 +634,10 @@ def level_points(thorough):
 def lattice(thorough):
     """(idx, n_all, refs, nxseg, pov, nseg, fs, method, level of the base records, far common gain or None)"""
     base = lattice_unit(thorough)
-    xs = sorted({c[3] for c in base})
-    ps = {x: sorted({c[4] for c in base if c[3] == x}) for x in xs}
-    ss = sorted({c[5] for c in base})
+    full = base if thorough else lattice_unit(True)      # axis positions are taken in the thorough lattice: G is the same in both tiers
+    xs = sorted({c[3] for c in full})
+    ps = {x: sorted({c[4] for c in full if c[3] == x}) for x in xs}
+    ss = sorted({c[5] for c in full})
     out = []
     for c in base:
         # unit-level points: the square law for a far common gain G on every point (thorough) / on one point in three (quick), chosen and
@@ -636,7 +647,7 @@ def lattice(thorough):
         r = ps[nxseg].index(pov) + ss.index(nseg) + xs.index(nxseg) + n_all + len(refs) + refs[0]
         far = LEVELS[(r // 3 + mi + fi) % len(LEVELS)] if (thorough or (r + mi) % 3 == 0) else None
         out.append(tuple(c) + (1.0, far))
-    for c in level_points(thorough):
+    for c in with_quick(level_points, thorough):
         out.append((len(out),) + tuple(c[1:]) + (1.0 / c[8],))       # records at level L: common gain 1/L, back to unit level
     return out
 
@@ -737,6 +748,14 @@ def delay_lattice(thorough):
     # one long record per estimator (3 x 3 x 480 000 samples > 2**22)
     for method in ("per", "cor"):
         out.append((len(out), 3, 0, 2, 64, 1, -10.0, 0.0, 7500, 100.0, method))
+    for c in with_quick(delay_level_points, thorough):
+        out.append((len(out),) + c)
+    return out
+
+
+def delay_level_points(thorough):
+    out = []
+    places = [(2, 0, 1), (2, 1, 0), (3, 0, 2), (3, 2, 1)]
     # record level: the whole record (source, copy, bystander) x LEVELS; every gain x every level x both ends of the delay range (thorough:
     # every delay up to 16, then 1, 2, 4, 8, 12, nxseg//64) x estimator on two powers of two and two lengths with a prime factor >= 13 (65: odd,
     # periodogram only); 60 segments (the noisier record), half overlap (thorough: also none); fs and placement rotate over (gain, delay, level)
@@ -751,7 +770,7 @@ def delay_lattice(thorough):
                         fs = (0.01, 102.4)[(gi // 2 + di + li) % 2]
                         n, s, c = places[(gi + di + li + xi) % len(places)]
                         for method in (("per", "cor") if nxseg % 2 == 0 else ("per",)):
-                            out.append((len(out), n, s, c, nxseg, d, g, pov, 60, fs, method, lev))
+                            out.append((n, s, c, nxseg, d, g, pov, 60, fs, method, lev))
     return out
 
 
@@ -774,6 +793,13 @@ def sine_lattice(thorough):
                         if not thorough and fi != (pi + si + n) % 3:
                             continue
                         out.append((len(out), n, nxseg, pov, nseg, fs))
+    for c in with_quick(sine_level_points, thorough):
+        out.append((len(out),) + c)
+    return out
+
+
+def sine_level_points(thorough):
+    out = []
     # record level: amplitudes LEVELS x AMPS (every line, every amplitude tuple) on one power of two, one even and one odd length with a
     # prime factor >= 13 (thorough: also 32); overlap, length and fs rotate over (level, channels, nxseg) (thorough: every overlap)
     for n in (2, 3):
@@ -782,7 +808,7 @@ def sine_lattice(thorough):
             for li, lev in enumerate(LEVELS):
                 r = li + xi + n
                 for pi, pov in enumerate(povs if thorough else (povs[r % len(povs)],)):
-                    out.append((len(out), n, nxseg, pov, (2, 3, 5.5)[(li + 2 * xi + n + pi) % 3], FSS[(r + pi) % 3], lev))
+                    out.append((n, nxseg, pov, (2, 3, 5.5)[(li + 2 * xi + n + pi) % 3], FSS[(r + pi) % 3], lev))
     return out
 
 
@@ -803,6 +829,13 @@ def class_lattice(thorough):
                 for pov in (povs if thorough else (povs[(ci + ni + xi) % len(povs)],)):
                     for method in (("per", "cor") if nxseg % 2 == 0 else ("per",)):
                         out.append((len(out), cls, n, nxseg, pov, method, 50.0))
+    for c in with_quick(class_level_points, thorough):
+        out.append((len(out),) + c)
+    return out
+
+
+def class_level_points(thorough):
+    out = []
     # record level: the bound record x LEVELS, every class x estimator x level on a power of two and a length with a prime factor >= 13
     # (thorough: also 256 and the odd 65, periodogram only); channels and overlap rotate (thorough: every channel count)
     for ci, cls in enumerate(("FDD", "EFDD", "FSDD", "pLSCF")):
@@ -812,7 +845,7 @@ def class_lattice(thorough):
                 for ni, n in enumerate((2, 3, 5) if thorough else ((2, 3)[(ci + xi + li) % 2],)):
                     pov = povs[(ci + xi + li + ni) % len(povs)]
                     for method in (("per", "cor") if nxseg % 2 == 0 else ("per",)):
-                        out.append((len(out), cls, n, nxseg, pov, method, 50.0, lev))
+                        out.append((cls, n, nxseg, pov, method, 50.0, lev))
     return out
 
 
